@@ -44,7 +44,7 @@ const c14Replace = "replace=dario.cat/mergo.Merge=>C14MergeModel"
 
 // A chain child -> parent -> grandparent: Get, Flattened, FlattenedParent, WrappedAndFlattened, FlattenStack
 // and Copy all see the nearest definition; an empty value is a definition; nothing else is invented.
-//verif:entry HarnessGeraChain unwind=8 reach=child,parent,grand,none replace=dario.cat/mergo.Merge=>C14MergeModel
+//verif:entry HarnessGeraChain unwind=8 conform=12 reach=child,parent,grand,none replace=dario.cat/mergo.Merge=>C14MergeModel
 func HarnessGeraChain() {
 	c, hc, vc := c14Level("child")
 	p, hp, vp := c14Level("parent")
